@@ -70,7 +70,7 @@ var schemePool = []string{"http", "https", "mailto", "ftp", "data", "x-app", "ja
 var schemeRePool = []*regexp.Regexp{regexp.MustCompile(`^x-`), regexp.MustCompile(`^(ftp|sftp)$`), regexp.MustCompile(`^tel$`), regexp.MustCompile(`s$`), regexp.MustCompile(`^[a-z]+$`)}
 
 var stylePropPool = []string{"color", "font-family", "text-decoration", "margin", "background-image", "opacity", "nosuchprop", "text-align", "width", "x-any", "x-kw",
-	"background", "font-size", "border", "animation", "filter", "list-style", "transition", "height", "float"}
+	"background", "font-size", "border", "animation", "filter", "list-style", "transition", "height", "float", "-webkit-color", "-moz-text-align", "mso-width"}
 
 var styleRePool = []rePoolEntry{
 	{regexp.MustCompile(`^[a-z]+$`), []string{"red", "left"}, []string{"", "a b", "1"}},
